@@ -31,7 +31,9 @@ GearDestLegal(d) == (d[1] = "int" /\ d[2] \in 0..63) \/ d \in GearAddrs
 DevDestLegal(d) == d \in DevAddrs
 GearDest(d) == IF d[1] = "int" THEN <<"gshort", d[2]>> ELSE d
 \* instance argument: every instance byte except 0xFE "device" (assigned to device commands)
-InstLegal(i) == i \in Instances /\ i[1] # "device"
+\* ... and the bytes the standard reserves, which the library lets a caller name explicitly: a byte value only
+ReservedByte(b) == b \in 0..255 /\ InstOfByte(b) = <<"reserved", b>>
+InstLegal(i) == (i \in Instances /\ i[1] # "device") \/ (i[1] = "reserved" /\ ReservedByte(i[2]))
 
 \* ---- decoding: the command name the standard gives a frame -------------------
 Unnamed == "?"
